@@ -120,13 +120,13 @@ S["C12"] = dict(title="Close and Disconnect end the client from any state, promp
   bounds={"quick":"2-3 goroutines, states {never connected, down, online, closed}, quit {nil, closed}","thorough":"same"},
   outside=["preemption inside straight-line code","wall-clock promptness","runtime-level goroutine/descriptor leaks"])
 S["C14"] = dict(title="Errors stay in documented classes; 'not submitted' means no byte was sent", technique=TECH+"; error values are concrete object graphs walked by errors.Is/As models, feasibility of each path decided by the solver", harnesses=[
-    H("verifH_C14_classifiers", "L14.c IsDeny/IsEnd/Backoff/ReadBackoff vs errors.Is over error trees (wrap, multi-%w, Join of 2 and 3, custom Is, nil Unwrap); classifiers leave their argument unchanged", T({"depth":2,"leaves":7}), T({"depth":2,"leaves":16}, time_sec=2400, maxpaths=3000000)),
+    H("verifH_C14_classifiers", "L14.c IsDeny/IsEnd/Backoff/ReadBackoff vs errors.Is over error trees (wrap, multi-%w, Join of 2 and 3, custom Is, nil Unwrap); classifiers leave their argument unchanged", T({"depth":2,"leaves":7}), T({"depth":2,"leaves":10}, time_sec=2400, maxpaths=3000000)),
     H("verifH_C14_methods", "L14.a/b each request method x {down, online with write fault, closed} x quit x response {answer, broker failure, connection loss, close}: documented classes, not-submitted => no byte", T({"wfaults":1,"storefaults":1}), T({"wfaults":2,"storefaults":1}), ("ok","classified","not-submitted","quit")),
     H("verifH_C08_requests", "not-submitted classes wrote nothing; failed transfer is ErrSubmit", T({"faults":2}), T({"faults":3}), ("complete","failed","not-submitted")),
   ],
   assumptions=["errors.Is/As are engine models of the documented tree walk calling the real Is/Unwrap methods; errors.Join and its Unwrap are executed from SSA (aliasing of the joined slice is visible)",
     "fmt.Errorf is modelled structurally: %w operands become Unwrap children, texts are not modelled"],
-  bounds={"quick":"error trees of depth <= 2 (<= 7 nodes) over 7 leaf kinds; one request per path, <= 1 write fault, <= 1 store fault","thorough":"16 leaf kinds"},
+  bounds={"quick":"error trees of depth <= 2 (<= 7 nodes) over 7 leaf kinds; one request per path, <= 1 write fault, <= 1 store fault","thorough":"10 leaf kinds"},
   outside=["error texts","pending-connect state for blocking requests (C18 lockwrite harness)"])
 S["C11"] = dict(title="Every request completes and gets its own response", technique=TECH+"; arbitrary response bodies against registered requests; scripted interleaving through a guarded hook point for the ping slot", harnesses=[
     H("verifH_C11_correlation", "L11.b SUBACK/UNSUBACK with arbitrary identifier and codes against 1..2 registered requests at free identifiers: only the addressed one is answered, SubscribeError lists its own failed filters in order", reach=("granted","failed-filters","unsuback","count-mismatch","unsolicited-tolerated")),
